@@ -26,6 +26,8 @@ func checkC20(c *Ctx) {
 	c.importFrom(checkC02, "C20.4", "C02.1", "C02.7")
 	// the forming side of votes: the voting machine and the Kauri aggregator emit at exactly QuorumSize() (C09.2, C09.7/threshold)
 	c.importFrom(checkC09, "C20.5", "C09.2", "C09.7/threshold")
+	// the count of a decoded bit field is what the thresholds are compared with (C19.2: recounted from the bytes)
+	c.importFrom(checkC19, "C20.6", "C19.2")
 
 	nf := p.Func("", "NumFaulty")
 	qs := p.Func("", "QuorumSize")
